@@ -494,18 +494,24 @@ def oracle(case):
             ret = _construct(d, x)
         except Exception as e:
             return msgs + [f"re-import of the {fmt} export raised {type(e).__name__}: {e}"]
-        objs = _walk(ret)
-        got_names = sorted(o.node_name for o in objs)
-        if got_names != sorted(names):
-            msgs.append(f"rebuilt node names {got_names} != {sorted(names)}")
-        gotE = sorted((p.node_name, c.node_name) for p in objs for c in p.children)
-        if gotE != E:
-            msgs.append(f"rebuilt edges {gotE} != {E}")
-        if fmt != "list":
-            for o in objs:
-                a = {k: v for k, v in _public_attrs(o).items() if v is not None}
-                if a != want_attrs.get(o.node_name):
-                    msgs.append(f"rebuilt attributes of {o.node_name!r}: {a} != {want_attrs.get(o.node_name)}")
+        # the same export object is built from twice: it is still the export after the first build
+        try:
+            rets = [("", ret), (" (second build from the same export object)", _construct(d, x))]
+        except Exception as e:
+            return msgs + [f"second re-import of the same {fmt} export object raised {type(e).__name__}: {e}"]
+        for tag, ret in rets:
+            objs = _walk(ret)
+            got_names = sorted(o.node_name for o in objs)
+            if got_names != sorted(names):
+                msgs.append(f"rebuilt node names {got_names} != {sorted(names)}{tag}")
+            gotE = sorted((p.node_name, c.node_name) for p in objs for c in p.children)
+            if gotE != E:
+                msgs.append(f"rebuilt edges {gotE} != {E}{tag}")
+            if fmt != "list":
+                for o in objs:
+                    a = {k: v for k, v in _public_attrs(o).items() if v is not None}
+                    if a != want_attrs.get(o.node_name):
+                        msgs.append(f"rebuilt attributes of {o.node_name!r}: {a} != {want_attrs.get(o.node_name)}{tag}")
         return msgs
     # constructor cases: refusal iff the relation has a cycle; otherwise the relation's component is built
     if d["fmt"] == "list":
